@@ -264,7 +264,11 @@ func GenHistory(r *Rng, cfg GenCfg) []Op {
 		case x < 67:
 			ops = append(ops, Op{K: []string{"min", "max"}[r.Intn(2)], Name: n, WV: r.Chance(1, 2)})
 		case x < 72:
-			ops = append(ops, Op{K: "tot", Name: n})
+			if r.Chance(1, 3) {
+				ops = append(ops, Op{K: "len", Name: n})
+			} else {
+				ops = append(ops, Op{K: "tot", Name: n})
+			}
 		case x < 80:
 			if cfg.Structural {
 				switch r.Intn(5) {
@@ -321,7 +325,11 @@ func GenHistory(r *Rng, cfg GenCfg) []Op {
 					ops = append(ops, Op{K: "rmcoll", Name: nm})
 					g.colls[nm] = false
 				case 1, 2:
-					// same comparator: the tree's order stays meaningful
+					// same comparator: the tree's order stays meaningful; on a collection without items any
+					// comparator may be installed (SetCollection "installs the new comparator")
+					if cfg.CmpMode == 1 && len(g.shadow[nm]) == 0 && r.Chance(1, 2) {
+						g.cmpOf[nm] = r.Intn(4)
+					}
 					ops = append(ops, Op{K: "coll", Name: nm, N: g.cmpOf[nm]})
 					g.colls[nm] = true
 				case 3:
